@@ -20,6 +20,9 @@ subprocess.run(["git", "-C", "/repo", "worktree", "add", "-q", wt, "HEAD"], chec
 try:
     a = subprocess.run(["git", "apply", "/verif/seeded/%s/patch.diff" % seed], cwd=wt)
     if a.returncode != 0:
+        # context moved by a later fix: commit - fall back to patch(1) with fuzz
+        a = subprocess.run("patch -p1 -s --no-backup-if-mismatch < /verif/seeded/%s/patch.diff" % seed, shell=True, cwd=wt)
+    if a.returncode != 0:
         print(seed, "PATCH DOES NOT APPLY")
         sys.exit(2)
     res = {}
